@@ -97,7 +97,7 @@ PROPS = {
         ],
         "rule": ("a passive monitor over the complete wire trace (every tikvrpc request/response crossing the tikv.Client seam), the TSO issuance log "
                  "and the API history of every run of the transactional workloads (mixed workload, fault enumeration, crash enumeration, contention); "
-                 "rules R1-R9 of DESIGN.md 3/C04, each with its own evaluation counter in fault_and_probe_counters (c04.*); non-trivial as in the source mode"),
+                 "rules R1-R9 of DESIGN.md 3/C04, each with its own evaluation counter in fault_and_probe_counters (c04.*); non-trivial as in the source mode; in a third of the runs most transactions carry an assertion level (fast/strict) and exist / not-exist / unknown flags on written keys (true and false ones: a false one makes Commit fail definitely, probe.commit.assertion-failed), R9 compares every prewritten mutation's assertion with what flags and level imply"),
         "real_vs_stub": REAL_TXN,
         "assumptions": ["the statement's tail is cut off in properties.jsonl; R9 covers what is legible", "backend M: no async commit / 1PC requests are produced"],
     },
